@@ -39,4 +39,43 @@ func (fx *FuncVC) closedHeapAxiom(name string, sort Sort, l Leaf, elemHeap bool)
 	}
 	fx.assumeRaw(T{q, SBool})
 	fx.note("the entry heap is closed: every stored pointer refers to an object allocated before the call, or is nil")
+	// a slice stored in memory is well formed: 0 <= off, 0 <= len <= cap, and a nil slice has no capacity
+	// (opt-in with `option slice-wf`: the extra quantifiers slow unrelated proofs down noticeably)
+	if fx.spec != nil && fx.spec.Options["slice-wf"] != "" && l.Typ == nil && strings.HasSuffix(l.Path, "$b") && strings.HasSuffix(name, "b") && !fx.bv {
+		stem := name[:len(name)-1]
+		var hs [3]string
+		for i, suf := range []string{"o", "l", "c"} {
+			n := stem + suf
+			var srt Sort
+			if elemHeap {
+				srt = fx.heapSortElem(fx.idxSort())
+			} else {
+				srt = fx.heapSortObj(fx.idxSort())
+			}
+			if _, ok := fx.declared[n+"!0"]; !ok {
+				fx.decls = append(fx.decls, fmt.Sprintf("(declare-const %s!0 %s)", n, srt))
+				fx.declared[n+"!0"] = srt
+				if fx.entry != nil {
+					if _, ok := fx.entry.heaps[n]; !ok {
+						fx.entry.heaps[n] = T{n + "!0", srt}
+					}
+				}
+			}
+			hs[i] = n + "!0"
+		}
+		sel := func(h string) string {
+			if elemHeap {
+				return "(select (select " + h + " cb?) cj?)"
+			}
+			return "(select " + h + " cr?)"
+		}
+		body := fmt.Sprintf("(and (<= 0 %s) (<= 0 %s) (<= %s %s) (=> (= %s 0) (= %s 0)))", sel(hs[0]), sel(hs[1]), sel(hs[1]), sel(hs[2]), sel(h0), sel(hs[2]))
+		var wf string
+		if elemHeap {
+			wf = fmt.Sprintf("(forall ((cb? Int) (cj? %s)) (! %s :pattern (%s) :pattern (%s)))", fx.idxSort(), body, sel(hs[1]), sel(hs[2]))
+		} else {
+			wf = fmt.Sprintf("(forall ((cr? Int)) (! %s :pattern (%s) :pattern (%s)))", body, sel(hs[1]), sel(hs[2]))
+		}
+		fx.assumeRaw(T{wf, SBool})
+	}
 }
